@@ -346,3 +346,86 @@ def build(rng, *, family="base", n_axes=1, layout="onaxis", n_glyphs=8, curves="
 
 def master_norm_loc(model, m):
     return {a["tag"]: normalize_design(a, m["design_loc"][a["tag"]]) for a in model["axes"]}
+
+
+def add_kerning(model, rng, pairs=20, groups=True, divergent=0.0, partial=0.0, zero=0.1, exceptions=0.3, big=False):
+    """UFO kerning on the full masters: glyph and group pairs, exceptions, per-master divergent groups,
+    pairs present in only some masters.  Only exported glyphs take part."""
+    full = [m for m in model["masters"] if m["layer"] is None]
+    names = [g["name"] for g in model["glyphs"] if g["export"] and g["name"] != ".notdef"]
+    if len(names) < 2:
+        return model
+    rng.shuffle(names)
+    # base grouping: a few side-1 and side-2 groups, each glyph in at most one group per side
+    def grouping():
+        out = {}
+        if not groups:
+            return out
+        for side in ("public.kern1.", "public.kern2."):
+            pool = list(names)
+            rng.shuffle(pool)
+            ngroups = rng.randint(1, max(1, len(pool) // 3))
+            for gi in range(ngroups):
+                k = rng.randint(1, 3)
+                members, pool = pool[:k], pool[k:]
+                if members:
+                    out[f"{side}g{gi}"] = sorted(members)
+        return out
+    base_groups = grouping()
+    firsts = names + [g for g in base_groups if g.startswith("public.kern1.")]
+    seconds = names + [g for g in base_groups if g.startswith("public.kern2.")]
+    base = {}
+    n = 0
+    while n < pairs:
+        a, b = rng.choice(firsts), rng.choice(seconds)
+        if b in base.get(a, {}):
+            if len(firsts) * len(seconds) <= pairs:
+                break
+            continue
+        v = 0 if rng.random() < zero else rng.choice([-1, 1]) * rng.randint(1, 120)
+        base.setdefault(a, {})[b] = v
+        n += 1
+    # exceptions: glyph-vs-group pairs that override a group pair
+    if groups and exceptions:
+        for a in list(base):
+            for b in list(base[a]):
+                if rng.random() < exceptions:
+                    ga = base_groups.get(a)
+                    gb = base_groups.get(b)
+                    if ga and rng.random() < 0.5:
+                        base.setdefault(rng.choice(ga), {})[b] = rng.randint(-90, 90)
+                    elif gb:
+                        base.setdefault(a, {})[rng.choice(gb)] = rng.randint(-90, 90)
+    for mi, m in enumerate(full):
+        gr = {k: list(v) for k, v in base_groups.items()}
+        if mi and divergent and rng.random() < divergent and gr:
+            # move / drop / add members in this master only
+            for _ in range(rng.randint(1, 3)):
+                k = rng.choice(list(gr))
+                side = k[:13]
+                op = rng.random()
+                if op < 0.4 and len(gr[k]) > 1:
+                    gr[k].remove(rng.choice(gr[k]))
+                elif op < 0.8:
+                    used = {x for kk, vv in gr.items() if kk.startswith(side) for x in vv}
+                    free = [x for x in names if x not in used]
+                    if free:
+                        gr[k].append(rng.choice(free))
+                else:
+                    gr.pop(k)
+        kern = {}
+        for a, row in base.items():
+            for b, v in row.items():
+                if mi and partial and rng.random() < partial:
+                    continue
+                if (a.startswith("public.") and a not in gr) or (b.startswith("public.") and b not in gr):
+                    continue
+                vv = v if not mi else v + rng.randint(-40, 40)
+                if mi and rng.random() < zero:
+                    vv = 0
+                kern.setdefault(a, {})[b] = vv
+        if mi and partial and rng.random() < partial * 0.3:
+            kern = {}
+        m["groups"] = {k: v for k, v in gr.items() if v}
+        m["kerning"] = kern
+    return model
